@@ -62,6 +62,13 @@ func c04Check(t failer, test string, c *c04Case, ch bx.Chooser) map[bx.Op]ref.Se
 		if w := eval(&bx.Not{X: mp}, 0); w != on {
 			violation(t, "C04", test, c, "not (%s) gives %s but %s gives %s on selector %q literal %q\n datum: %s", pos, w, neg, on, sel.Parts, lit, c.Datum)
 		}
+		// both forms in ONE expression (one evaluator, one syntax tree): each keeps its own polarity
+		if w := eval(&bx.Or{L: mp, R: mn}, 0); w != tblOr(op, on) {
+			violation(t, "C04", test, c, "(%s) or (%s) in one expression gives %s; on their own they give %s and %s (selector %q literal %q)\n datum: %s", pos, neg, w, op, on, sel.Parts, lit, c.Datum)
+		}
+		if w := eval(&bx.And{L: mn, R: mp}, 0); w != tblAnd(on, op) {
+			violation(t, "C04", test, c, "(%s) and (%s) in one expression gives %s; on their own they give %s and %s (selector %q literal %q)\n datum: %s", neg, pos, w, on, op, sel.Parts, lit, c.Datum)
+		}
 		if w := eval(&bx.Not{X: mn}, 0); w != op {
 			violation(t, "C04", test, c, "not (%s) gives %s but %s gives %s on selector %q literal %q\n datum: %s", neg, w, pos, op, sel.Parts, lit, c.Datum)
 		}
